@@ -1138,7 +1138,9 @@ tp_shutdown(tp_p tp) {
 	for (size_t i = 0; i < tp->s.threads_max; i ++) {
 		if (0 == tpt_is_running(&tp->threads[i]))
 			continue;
-		tpt_msg_send(&tp->threads[i], NULL, 0,
+		/* If the queue is full the thread is busy draining it:
+		 * set the state directly, it is checked after every event. */
+		tpt_msg_send(&tp->threads[i], NULL, TP_MSG_F_FAIL_DIRECT,
 		    tpt_msg_shutdown_cb, NULL);
 	}
 }
